@@ -264,10 +264,25 @@ theorem buf1_length (bs buf : Bytes) (n : Nat) (hn : n ≤ buf.length) :
 
 /-! ### `AesReaderValid::read` -/
 
-/-- a model state as the generated structure (the ghost fields are not part of the code) -/
-def toGen (P : AesPrims) (v : Valid σ) : @Gen.AesReaderValid (dynOf P) σ :=
-  @Gen.AesReaderValid.mk (dynOf P) σ v.inner (UInt64.ofNat v.dataRemaining) (v.key, v.ctr) ⟨v.hmacKey, v.hmacMsg⟩
+/-- a model state as the generated structure (the ghost fields are not part of the code), for ANY
+implementation `D` of `Box<dyn AesCipher>` whose states are given by `emb key ctr` -/
+def toGenD (D : Rs.AesDyn) (emb : Bytes → CtrState → D.Cipher) (v : Valid σ) : @Gen.AesReaderValid D σ :=
+  @Gen.AesReaderValid.mk D σ v.inner (UInt64.ofNat v.dataRemaining) (emb v.key v.ctr) ⟨v.hmacKey, v.hmacMsg⟩
     v.finalized
+
+/-- … with the model's key stream as the cipher -/
+def toGen (P : AesPrims) (v : Valid σ) : @Gen.AesReaderValid (dynOf P) σ := toGenD (dynOf P) (fun k st => (k, st)) v
+
+/-- `D` run from `emb key ctr` does what the model's key stream does (on targets below 2^64 bytes) -/
+def DynOk (P : AesPrims) (D : Rs.AesDyn) (emb : Bytes → CtrState → D.Cipher) (key : Bytes) (ctr : CtrState) : Prop :=
+  ∀ bs : Bytes, bs.length < 2 ^ 64 →
+    D.crypt_in_place (emb key ctr) bs =
+      match cryptInPlace P key ctr bs with
+      | .ok (out, st) => some (out, emb key st)
+      | _ => none
+
+theorem dynOf_ok (P : AesPrims) (key : Bytes) (ctr : CtrState) : DynOk P (dynOf P) (fun k st => (k, st)) key ctr :=
+  fun _ _ => rfl
 
 /-- what the caller sees of a generated `read`, in the vocabulary of `Model.Aes` -/
 def outRead : Rs.IoRes UInt64 → Bytes → Out Bytes
@@ -278,15 +293,16 @@ def outRead : Rs.IoRes UInt64 → Bytes → Out Bytes
 /-- **`AesReaderValid::read` is the model's `Valid.read`**, as an equation between state transformers:
 same outcome (bytes / error kind / panic) and same successor state, for every inner reader, every
 primitive triple, every state and every buffer. -/
-theorem tie_aes_read (P : AesPrims) (hW : P.WF) (S : Src σ) (v : Valid σ) (buf : Bytes)
+theorem tie_aes_read_dyn (P : AesPrims) (hW : P.WF) (D : Rs.AesDyn) (emb : Bytes → CtrState → D.Cipher)
+    (S : Src σ) (v : Valid σ) (buf : Bytes) (hD : DynOk P D emb v.key v.ctr)
     (hbuf : buf.length < 2 ^ 64) (hrem : v.dataRemaining < 2 ^ 64) (hin : SmallA S)
     (hSl : ∀ bs s', S.rd v.inner (min v.dataRemaining buf.length) = (.ok bs, s') →
       bs.length ≤ buf.length ∨ v.dataRemaining < bs.length) :
-    (fun g : Rs.IoRes UInt64 × @Gen.AesReaderValid (dynOf P) σ × Bytes => (outRead g.1 g.2.2, g.2.1))
-        (@Gen.AesReaderValid.read (primsOf P) (dynOf P) σ (readOfA S) (toGen P v) buf) =
-      (eraseMsg (Valid.read P S v buf.length).1, toGen P (Valid.read P S v buf.length).2) := by
+    (fun g : Rs.IoRes UInt64 × @Gen.AesReaderValid D σ × Bytes => (outRead g.1 g.2.2, g.2.1))
+        (@Gen.AesReaderValid.read (primsOf P) D σ (readOfA S) (toGenD D emb v) buf) =
+      (eraseMsg (Valid.read P S v buf.length).1, toGenD D emb (Valid.read P S v buf.length).2) := by
   unfold Gen.AesReaderValid.read Valid.read
-  simp only [Id.run, Rs.L.id_pure, toGen, ofNat_eq_zero_iff hrem]
+  simp only [Id.run, Rs.L.id_pure, toGenD, ofNat_eq_zero_iff hrem]
   by_cases h0 : v.dataRemaining = 0
   · by_cases hft : v.finalized = true
     · simp [h0, hft, outRead, eraseMsg]
@@ -375,11 +391,7 @@ theorem tie_aes_read (P : AesPrims) (hW : P.WF) (S : Src σ) (v : Valid σ) (buf
           · have hlb' : ¬ bs.length > buf.length := by omega
             have hbn : bs.length ≤ min v.dataRemaining buf.length := by omega
             simp only [hlb, hlb', if_true, if_false, hT hbn]
-            have hcr : @Rs.AesDyn.crypt_in_place (dynOf P) (v.key, v.ctr) bs =
-                match cryptInPlace P v.key v.ctr bs with
-                | .ok (out, st) => some (out, (v.key, st))
-                | _ => none := rfl
-            rw [hcr]
+            rw [hD bs hs]
             have hsub : v.dataRemaining - bs.length < 2 ^ 64 := by omega
             simp only [ofNat_eq_zero_iff hsub]
             rcases hc : cryptInPlace P v.key v.ctr bs with ⟨pt, ctr'⟩ | e | m
@@ -443,6 +455,16 @@ theorem tie_aes_read (P : AesPrims) (hW : P.WF) (S : Src σ) (v : Valid σ) (buf
         · have hle' : bs.length > v.dataRemaining := by omega
           simp [hle, hle', outRead, eraseMsg]
 
+/-- `tie_aes_read_dyn` with the model's key stream as the cipher -/
+theorem tie_aes_read (P : AesPrims) (hW : P.WF) (S : Src σ) (v : Valid σ) (buf : Bytes)
+    (hbuf : buf.length < 2 ^ 64) (hrem : v.dataRemaining < 2 ^ 64) (hin : SmallA S)
+    (hSl : ∀ bs s', S.rd v.inner (min v.dataRemaining buf.length) = (.ok bs, s') →
+      bs.length ≤ buf.length ∨ v.dataRemaining < bs.length) :
+    (fun g : Rs.IoRes UInt64 × @Gen.AesReaderValid (dynOf P) σ × Bytes => (outRead g.1 g.2.2, g.2.1))
+        (@Gen.AesReaderValid.read (primsOf P) (dynOf P) σ (readOfA S) (toGen P v) buf) =
+      (eraseMsg (Valid.read P S v buf.length).1, toGen P (Valid.read P S v buf.length).2) :=
+  tie_aes_read_dyn P hW (dynOf P) (fun k st => (k, st)) S v buf (dynOf_ok P v.key v.ctr) hbuf hrem hin hSl
+
 /-- The case excluded by `hSl` above: the inner reader returns MORE than the buffer holds (and not more
 than `data_remaining`).  Source and model both panic at `&buf[0..read]`; the source has already executed
 `self.data_remaining -= read`, the model's state at that panic has not (the state after a panic is not
@@ -471,7 +493,7 @@ theorem tie_aes_read_overlong (P : AesPrims) (S : Src σ) (v : Valid σ) (buf : 
     have hE' : (decide (bs.length = 0) && !decide (min v.dataRemaining buf.length = 0)) = false := by
       have : ¬ bs.length = 0 := by omega
       simp [this]
-    simp only [Id.run, Rs.L.id_pure, toGen, ofNat_eq_zero_iff hrem, h0, decide_false, Bool.false_eq_true, if_false,
+    simp only [Id.run, Rs.L.id_pure, toGen, toGenD, ofNat_eq_zero_iff hrem, h0, decide_false, Bool.false_eq_true, if_false,
       hlen, Rs.as', Rs.As.cast, id, min_ofNat hrem hbuf, slice0 buf hn0, hn, if_true, read_readOfA, htl, hr,
       ofNat_eq_zero_iff hs, hne, hE', arith_sub_ofNat hrem hs, h2, slice0 _ hs, buf1_length bs buf _ hn]
     have hlb : ¬ bs.length ≤ buf.length := by omega
